@@ -365,11 +365,18 @@ func (d *Decoder) readField(fldName string, fldValue reflect.Value) error {
 			return err
 		}
 		v := int64(i)
+		// (the peer may declare the field wider than this struct does: what does not fit is refused, not truncated)
+		if fldValue.OverflowInt(v) {
+			return newCodecError("readField", "number %d does not fit field %s of type %v", v, clipName(fldName), typ)
+		}
 		fldValue.SetInt(v)
 	case reflect.Uint8, reflect.Uint16:
 		i, err := d.readInt(flag)
 		if err != nil {
 			return err
+		}
+		if i < 0 || fldValue.OverflowUint(uint64(i)) {
+			return newCodecError("readField", "number %d does not fit field %s of type %v", i, clipName(fldName), typ)
 		}
 		v := uint64(i)
 		fldValue.SetUint(v)
@@ -383,6 +390,10 @@ func (d *Decoder) readField(fldName string, fldValue reflect.Value) error {
 		i, err := d.readLong(flag)
 		if err != nil {
 			return err
+		}
+		// a uint64 beyond MaxInt64 travels as a negative long and is taken back by the 64-bit kinds only
+		if typ.Bits() < 64 && (i < 0 || fldValue.OverflowUint(uint64(i))) {
+			return newCodecError("readField", "number %d does not fit field %s of type %v", i, clipName(fldName), typ)
 		}
 		fldValue.SetUint(uint64(i))
 	case reflect.Bool:
